@@ -51,11 +51,13 @@ pub fn eval_offset(prefix: &[u8], b: &[u8], script: &[Step], default_max: usize)
     };
     let mut stream = prefix.to_vec();
     stream.extend_from_slice(b);
+    crate::total::guard_case(json!({"kind": "offset", "hex": bits::hex(b), "prefix": bits::hex(prefix), "script": script_json(script), "default_max": default_max}));
     let got = catch_unwind(AssertUnwindSafe(|| {
         let mut s = Scripted::at(&stream, prefix.len(), script, default_max);
         let r = Frame::from_reader(&mut s).map_err(|e| format!("{e:?}"));
         render(&r)
     }));
+    crate::total::guard_done();
     match got {
         Err(_) => vec![(format!("C19/panic/{class}"), format!("from_reader panicked: {}", last_panic()))],
         Ok(g) if g != want => vec![(format!("C19/reader_offset_differs/{class}"), format!("slice decode gives `{}`, decode from a reader positioned {} bytes into a stream gives `{}`", short(&want), prefix.len(), short(&g)))],
@@ -113,6 +115,14 @@ fn dec_bytes(b: &[u8]) -> Result<String, String> {
 
 /// returns (rendered result, call trace)
 fn dec_reader(b: &[u8], script: &[Step], default_max: usize) -> Result<(String, String), String> {
+    // (a reader decode that does not come back is saved by the watchdog in this form)
+    crate::total::guard_case(json!({"kind": "schedule", "hex": bits::hex(b), "script": script_json(script), "default_max": default_max}));
+    let r = dec_reader_inner(b, script, default_max);
+    crate::total::guard_done();
+    r
+}
+
+fn dec_reader_inner(b: &[u8], script: &[Step], default_max: usize) -> Result<(String, String), String> {
     catch_unwind(AssertUnwindSafe(|| {
         let mut s = Scripted::new(b, script, default_max);
         let r = Frame::from_reader(&mut s).map_err(|e| format!("{e:?}"));
@@ -254,6 +264,7 @@ pub fn eval_stream(frames: &[Vec<u8>], frag: usize) -> Vec<(String, String)> {
         stream.extend_from_slice(f);
     }
     let script: [Step; 0] = [];
+    crate::total::guard_case(json!({"kind": "stream", "frames": frames.iter().map(|x| bits::hex(x)).collect::<Vec<_>>(), "default_max": frag}));
     let res = catch_unwind(AssertUnwindSafe(|| {
         let mut rd = Scripted::at(&stream, 0, &script, frag);
         let mut out = vec![];
@@ -262,6 +273,7 @@ pub fn eval_stream(frames: &[Vec<u8>], frag: usize) -> Vec<(String, String)> {
         }
         out
     }));
+    crate::total::guard_done();
     let got = match res {
         Ok(g) => g,
         Err(_) => return vec![("C19/panic/stream".into(), format!("from_reader panicked on a stream of {} frames: {}", frames.len(), last_panic()))],
@@ -523,10 +535,10 @@ pub fn run_c19(ctx: &mut Ctx) -> ! {
         let mut jobs: Vec<(Vec<u8>, Vec<Vec<u8>>)> = vec![];
         let nbase = ctx.tier.pick(3usize, 40);
         for k in 0..nbase {
-            for (df, at, len) in [(4u8, 20usize, 13usize), (5, 20, 13), (17, 32 + 9, 12)] {
+            for (df, at, len) in [(4u8, 20usize, 13usize), (5, 20, 13), (17, 32 + 9, 12), (21, 20, 13), (17, 32 + 12, 13)] {
                 let mut a = gen_frame_df(&mut rng, df);
                 if df == 17 {
-                    let me = gen_me(&mut rng, 11);
+                    let me = gen_me(&mut rng, if len == 12 { 11 } else { 28 });
                     a[4..11].copy_from_slice(&me);
                 }
                 // a legal Gillham code (Q = 0, M = 0): take one from a small list, vary by k
